@@ -190,6 +190,29 @@ theorem worst_append {m : Nat} (q : Vec) (hq : q.length = m) :
     show wdVec (vmax p (worst (p' :: ps))) (vmax p (worst (p' :: (ps ++ [q])))) = true
     exact vmax_mono_right p _ _ (by rw [worst_length (by simp) hP', hP p (by simp)]) ih
 
+/-- componentwise maximum is associative (rows of any lengths) -/
+theorem vmax_assoc : ∀ (p a q : Vec), vmax p (vmax a q) = vmax (vmax p a) q
+  | [], _, _ => by simp [vmax]
+  | _ :: _, [], _ => by simp [vmax]
+  | _ :: _, _ :: _, [] => by simp [vmax]
+  | x :: p, y :: a, z :: q => by
+    have ih := vmax_assoc p a q
+    simp only [vmax, List.zipWith_cons_cons, List.cons.injEq] at ih ⊢
+    refine ⟨?_, ih⟩
+    have e : ∀ u w : Rat, (if u ≤ w then w else u) = max u w := fun u w => (max_def u w).symm
+    rw [e, e, e, e, max_assoc]
+
+/-- the worst point of a history with one more row is the componentwise maximum of the old worst
+point and the new row: the reference point can be kept incrementally, by EXACT maxima -/
+theorem worst_snoc (q : Vec) : ∀ {P : List Vec}, P ≠ [] → worst (P ++ [q]) = vmax (worst P) q
+  | [], h => absurd rfl h
+  | [p], _ => rfl
+  | p :: p' :: ps, _ => by
+    have ih := worst_snoc q (P := p' :: ps) (by simp)
+    show vmax p (worst (p' :: (ps ++ [q]))) = vmax (vmax p (worst (p' :: ps))) q
+    rw [← vmax_assoc]
+    exact congrArg (vmax p) ih
+
 /-! ### the recorder -/
 
 theorem negVec_length (p : Vec) : (negVec p).length = p.length := by simp [negVec]
@@ -201,6 +224,27 @@ theorem rect_recPts {m : Nat} {objs : List Vec} (h : Rect m objs) : Rect m (recP
 
 theorem recPts_append (st : List Vec) (v : Vec) : recPts (st ++ [v]) = recPts st ++ [negVec v] := by
   simp [recPts]
+
+theorem refStep_refOf (st : List Vec) : ∀ (o : Option Vec), refStep (refOf st) o = refOf (recStep st o)
+  | none => rfl
+  | some v => by
+    cases st with
+    | nil => simp [refOf, refStep, recStep, recPts, worst]
+    | cons s ss =>
+      have h : worst (recPts (s :: ss) ++ [negVec v]) = vmax (worst (recPts (s :: ss))) (negVec v) :=
+        worst_snoc (negVec v) (by simp [recPts])
+      simp only [refOf, refStep, recStep, List.isEmpty_cons, List.cons_append, List.isEmpty_cons,
+        Bool.false_eq_true, if_false]
+      rw [← List.cons_append, recPts_append, h]
+
+/-- the incrementally kept reference point is the worst point of the history, after every stream -/
+theorem refRun_eq : ∀ (jobs : List (Option Vec)) (st : List Vec),
+    refRun (refOf st) jobs = refOf (jobs.foldl recStep st)
+  | [], _ => rfl
+  | o :: os, st => by
+    show refRun (refStep (refOf st) o) os = refOf (os.foldl recStep (recStep st o))
+    rw [refStep_refOf]
+    exact refRun_eq os (recStep st o)
 
 theorem recValueFast_eq (objs : List Vec) : recValueFast objs = recValue objs := by
   simp only [recValueFast, recValue, hvFast_eq]
